@@ -997,6 +997,9 @@ class _Deriver:
         if x is None:
             x = self.rng.choice(ids)
         key = "_%s_" % x
+        if self.rng is not None and self.rng.random() < 0.2:
+            # other spellings a _var_ placeholder may have (anything matching ^_[^_].*_$)
+            key = self.rng.choice(["_%s1_", "_%s_v_", "_V%s_", "_%s__x_", "_%s\u00e9_"]) % x
         if key in ids or any(getattr(n, "id", None) == key or getattr(n, "arg", None) == key
                              for n in ast.walk(frag)):
             return False
